@@ -38,6 +38,8 @@ def corpus():
         # fixed: tryGet answered None on a dead weak reference -> a second unpickle created a second instance
         {'cfg': {'cache': True, 'freq': 100, 'frac': 1},
          'ops': [['create', 0, [[1, 100]]], ['pickle', 0], ['cull', 0], ['drop', 0], ['unpickle', 0], ['unpickle', 0], ['get', 0, 1]]},
+        # seeded once: the id must be coerced BEFORE the cache lookup (get('1') and get(1) are the same row)
+        {'cfg': {'cache': True, 'freq': 100, 'frac': 2}, 'ops': [['create', 0, [[1, 100]]], ['get', 0, 1, 'str'], ['get', 0, 1]]},
         # cull moves a held object to the weak cache; it must come back
         {'cfg': {'cache': True, 'freq': 2, 'frac': 1},
          'ops': [['create', 0, [[1, 100]]], ['create', 0, [[1, 101]]], ['cull', 0], ['get', 0, 1], ['get', 0, 2], ['select', 0, None, 0]]},
